@@ -307,6 +307,32 @@ func runC18(c *core.Ctx) {
 				okc = res.OK() && len(errRets) == 1
 				detail = res.Summary()
 			}
+			if len(inner) == 0 {
+				// the same membership test written with the standard library: slices.Contains(DependenciesForModule(newDep), name)
+				want := "slices.Contains(recv.DependenciesForModule(each(p1)), p0)"
+				var test *ast.IfStmt
+				fn.InspectShallow(func(n ast.Node) bool {
+					if is, ok := n.(*ast.IfStmt); ok && an.InNode(outer[0], is) && fn.Canon(is.Cond) == want {
+						test = is
+					}
+					return true
+				})
+				if test != nil {
+					var errRets []an.Loc
+					for _, b := range g.Blocks {
+						if r := an.ReturnOf(b); r != nil && an.InNode(test.Body, r) && len(r.Results) == 1 && fn.Canon(r.Results[0]) != "nil" {
+							errRets = append(errRets, g.Locate(r))
+						}
+					}
+					t := an.Table{G: g, From: g.Locate(test.Cond), Opts: an.ExecOpts{Header: oh}, FreeUnknown: true, Atoms: []an.Atom{{Name: "self", Values: []string{"T", "F"}}},
+						Binder:  &an.Binder{Fn: fn, Bool: map[string]string{want: "self"}},
+						Targets: errRets, Want: func(r an.Row, _ int) an.Tri { return an.FromBool(r["self"] == "T") }}
+					res := t.Run()
+					if len(errRets) == 1 && res.OK() {
+						okc, detail = true, "membership by slices.Contains: "+res.Summary()
+					}
+				}
+			}
 			c.Check(okc, "R4", "func=AddDependency:cycle", fn.Pos(), "an error is returned ⇔ the module is among the transitive dependencies of a new dependency: "+detail, 2)
 		}
 	}
